@@ -1117,6 +1117,63 @@ pub fn special_mate_family(rng: &mut Rng, tries: usize, out: &mut Vec<Crafted>) 
 /// that rejects all root moves in such a position ends up committing "no move".
 pub fn hopeless_positions(rng: &mut Rng, tries: usize, want: usize) -> Vec<(&'static str, Position)> {
     let mut out = Vec::new();
+    // (c) every legal move is a capture and every one of them is answered by a mating capture:
+    //     back-rank patterns (checker captured by a defender, recapture mates), shifted and mirrored
+    for shift in -4..=1i32 {
+        for defender_file in 0..8i32 {
+            for heavy in [Kind::R, Kind::Q] {
+                for colour_flip in [false, true] {
+                    // white king g1 behind f2 g2 h2, black heavy pieces on e1 (checking) and e8
+                    let (kf, cf) = (6 + shift, 4 + shift);
+                    if !(0..8).contains(&kf) || !(0..8).contains(&cf) || !(0..8).contains(&(kf - 1)) || defender_file == cf || (defender_file - kf).abs() <= 0 {
+                        continue;
+                    }
+                    let mut p = Position::empty();
+                    p.turn = Col::W;
+                    p.board[sq(kf, 0) as usize] = Some((Col::W, Kind::K));
+                    for df in [-1, 0, 1] {
+                        if on_board(kf + df, 1) {
+                            p.board[sq(kf + df, 1) as usize] = Some((Col::W, Kind::P));
+                        }
+                    }
+                    p.board[sq(cf, 0) as usize] = Some((Col::B, heavy));
+                    p.board[sq(cf, 7) as usize] = Some((Col::B, Kind::R));
+                    if p.board[sq(defender_file, 0) as usize].is_some() {
+                        continue;
+                    }
+                    p.board[sq(defender_file, 0) as usize] = Some((Col::W, Kind::R));
+                    let bk = sq(if cf < 4 { 7 } else { 0 }, 7);
+                    if p.board[bk as usize].is_some() {
+                        continue;
+                    }
+                    p.board[bk as usize] = Some((Col::B, Kind::K));
+                    p.half = 3;
+                    p.full = 30;
+                    let q = if colour_flip { p.mirror() } else { p };
+                    if q.chess_root_ok().is_err() {
+                        continue;
+                    }
+                    let legal = q.legal_moves();
+                    if legal.is_empty() {
+                        continue;
+                    }
+                    let all = legal.iter().all(|m| {
+                        q.is_capture(*m) && {
+                            let z = q.apply(*m);
+                            z.legal_moves().iter().any(|r| z.is_capture(*r) && {
+                                let y = z.apply(*r);
+                                y.in_check() && y.legal_moves().is_empty()
+                            })
+                        }
+                    });
+                    if all {
+                        out.push(("every-move-is-a-capture-answered-by-a-mating-capture", q));
+                    }
+                }
+            }
+        }
+    }
+    let want = want + out.len();
     for t in 0..tries {
         if out.len() >= want {
             break;
